@@ -482,6 +482,28 @@ pub fn public_seal_total<V: SealingVersion<Public>>(m: usize, f: usize, a: usize
     core::mem::forget(s.sealed);
 }
 
+/// C03 (P-384 backends): every specification-conforming token is accepted — the (r, n - s) twin of a
+/// valid ECDSA signature is a valid signature of the same message, so the token carrying it must
+/// verify and yield the same message (the models' stand-in for n - s is the complement of s).
+pub fn public_ecdsa_twin_accepted<V: SealingVersion<Public>>(m: usize, f: usize, a: usize) {
+    let mut s = signed::<V>(m, f, a, false);
+    let n = m + crate::PUBLIC_SIG_LEN;
+    let mut i = n - 48;
+    while i < n {
+        s.sealed[i] = !s.sealed[i];
+        i += 1;
+    }
+    let out = <V as UnsealingVersion<Public>>::unseal(&s.pk, "", &mut s.sealed, s.footer.s(), s.aad.s());
+    match forget(out) {
+        Some(o) => {
+            assert!(eqn(o, s.msg.s(), m));
+            kani::cover!(true, "twin accepted");
+        }
+        None => assert!(false, "a specification-conforming token (high-S / low-S twin) was rejected"),
+    }
+    core::mem::forget(s.sealed);
+}
+
 pub fn public_aad_refused<V: SealingVersion<Public>>() {
     let msg: [u8; 1] = kani::any();
     let aad: [u8; 1] = kani::any();
@@ -1043,6 +1065,34 @@ pub fn asym_key_wrong_len<V: HasKey<Public> + HasKey<Secret>, const N: usize>(pu
     let s = <V as HasKey<Secret>>::decode(&b);
     if !sec_ok {
         assert!(s.is_err(), "a byte string of the wrong length was accepted as a secret key");
+    }
+    kani::cover!(true);
+    core::mem::forget((p, s));
+}
+
+/// C10 / C08: the PKE key kinds (which share the `.public.` / `.secret.` text headers) reject byte
+/// strings of another kind's length (32 = local key, 33 = key id, secret length - 1)
+pub fn pke_key_wrong_len<V: HasKey<PkePublic> + HasKey<PkeSecret>, const N: usize>(pub_lens: &[usize], sec_lens: &[usize]) {
+    let b: [u8; N] = kani::any();
+    let mut pub_ok = false;
+    let mut i = 0;
+    while i < pub_lens.len() {
+        pub_ok |= pub_lens[i] == N;
+        i += 1;
+    }
+    let mut sec_ok = false;
+    let mut i = 0;
+    while i < sec_lens.len() {
+        sec_ok |= sec_lens[i] == N;
+        i += 1;
+    }
+    let p = <V as HasKey<PkePublic>>::decode(&b);
+    if !pub_ok {
+        assert!(p.is_err(), "a byte string of the wrong length was accepted as a PKE public key");
+    }
+    let s = <V as HasKey<PkeSecret>>::decode(&b);
+    if !sec_ok {
+        assert!(s.is_err(), "a byte string of the wrong length was accepted as a PKE secret key");
     }
     kani::cover!(true);
     core::mem::forget((p, s));
